@@ -237,6 +237,36 @@ Definition rec_eqb (a b : option (Z * Z * Z)) : bool :=
   | _, _ => false
   end.
 
+(* ---------- the log line of the equal-priority branch ---------- *)
+(* `logger.warning(f"Pausing all operators, including self: {peers}")` formats EVERY parsed peer (dead ones
+   and oneself included); Peer.__repr__ -> as_dict() -> int(self.priority) raises on a priority that is
+   not int-convertible.  It is evaluated only when no higher-priority peer exists, a same-priority one
+   does, and the toggle is off; the exception aborts the call after clean() and BEFORE turn_to(). *)
+Fixpoint first_int_error (oint : string -> option Z) (ps : list peer) : option exn :=
+  match ps with
+  | [] => None
+  | p :: ps' => match py_int oint (p_prio p) with PErr e => Some e | POk _ => first_int_error oint ps' end
+  end.
+
+Definition num_gt (own : Z) (p : peer) : bool :=
+  match num_of (p_prio p) with Some z => own <? z | None => false end.
+
+Definition log_raises (oint : string -> option Z) (c : cfg) (toggle0 : option bool) (ps : list peer) : option exn :=
+  let live := live_of (c_id c) ps in
+  match toggle0 with
+  | Some false =>
+      if forallb (fun p => negb (num_gt (c_prio c) p)) live
+         && match same_of (c_prio c) live with [] => false | _ => true end
+      then first_int_error oint ps else None
+  | _ => None
+  end.
+
+Definition parsed_peers (oint odate : string -> option Z) (status : option json) (now0 : Z) : list peer :=
+  match status_items status with
+  | POk kvs => match mk_peers oint odate now0 kvs with POk ps => ps | PErr _ => [] end
+  | PErr _ => []
+  end.
+
 (* ---------- one whole call as the harness observes it ---------- *)
 (* The awaited effects in order: the clean() PATCH, conflicts_found.turn_to(), the sleep, the
    touch() PATCH.  [lat] = virtual ms the clean PATCH takes (the wall clock is read again after
@@ -267,6 +297,9 @@ Definition run_event (oint odate : string -> option Z) (c : cfg) (toggle0 : opti
       let has_clean := match o_clean o with [] => false | _ => true end in
       let pre := if has_clean then [ObsClean (o_clean o)] else [] in
       if has_clean && onat_eqb fail 0 then (pre, Some ApiError) else
+      match log_raises oint c toggle0 (parsed_peers oint odate status now0) with
+      | Some e => (pre, Some e)
+      | None =>
       let now1 := if has_clean then now0 + lat else now0 in
       let turn := match o_turn o with Some b => [ObsTurn b] | None => [] end in
       match touch_time o now1 interrupt with
@@ -275,6 +308,7 @@ Definition run_event (oint odate : string -> option Z) (c : cfg) (toggle0 : opti
           let idx := if has_clean then 1%nat else 0%nat in
           (pre ++ turn ++ [ObsTouch t (touch_record c None t)],
            if onat_eqb fail idx then Some ApiError else None)
+      end
       end
   end.
 
